@@ -1,11 +1,11 @@
 SPECIFICATION Spec
 CONSTANTS MaxLen = 3
-  Pool <- Pool3
-  Starts <- StartsB
+  Pool <- PoolA7
+  Starts <- StartsA
   Xs = {2}
-  Nested = TRUE
+  Nested = FALSE
   Ys <- NoData
-  Extra <- NoElems
+  Extra <- ExtraA
   Variant = "doc"
   CopyVarContext = TRUE
   ExtendByCompose = TRUE
